@@ -5,6 +5,9 @@ hs = []
 
 
 def add(name, obl, inst, file, tier="quick", shape=None, **kw):
+    # budget weight from measured resident sizes of the quick tier (<= 2 GB, replace over 4 bytes up to 4.9 GB); the caps stay
+    if tier == "quick":
+        kw.setdefault("weight_gb", 5 if name.startswith("replace_h4") or name.startswith("replace_wide_h4") else 3)
     hs.append(H(name, file, inst, obl, profile="R", tier=tier, shape=shape or {}, **kw))
 
 
